@@ -21,7 +21,7 @@ build() { # $1 = profile flag(s)
 # the campaign found an unlisted failure; timeouts / OOM / build problems are inconclusive (2), never a violation.
 fuzz_campaign() { # $1 = property
     case "$1" in C01|C17) tgt=fz_chain;; C08|C15) tgt=fz_nopanic;; *) return 0;; esac
-    runs="${VERIF_FUZZ_RUNS:-1500000}"
+    runs="${VERIF_FUZZ_RUNS:-600000}"
     seed="${VERIF_SEED:-20261002}"; case "$1" in C17|C08) seed=$((seed + 1));; esac
     [ "$seed" -eq 0 ] && seed=1
     out=$(cd "$H" && cargo +nightly fuzz build "$tgt" 2>&1) || { echo "$out" | tail -n 30 >&2; echo "HARNESS-ERROR: cargo fuzz build failed" >&2; return 2; }
